@@ -498,6 +498,7 @@ func scenSeq(out *scenOut, r *rng, thorough bool) {
 	for i := 0; i < runs; i++ {
 		seqOnce(out, r.fork(), i)
 	}
+	seqReuse(out)
 	// a sequence element yielding a raw BatchMsg with a nil entry: run in a
 	// child process, because a failure kills the whole process
 	self, _ := os.Executable()
@@ -527,6 +528,55 @@ func scenSeq(out *scenOut, r *rng, thorough bool) {
 			cmd.Process.Kill()
 			out.fail(finding{Property: "C03", Class: "new", What: "sequence with a raw BatchMsg containing nil stalls", Input: "seqrawnil"})
 		}
+	}
+}
+
+// seqReuse: the SAME Sequence command value (with a nil entry in the middle) is
+// returned by several Updates, one after the other: every run must start each
+// command once and deliver its messages once, in order.
+func seqReuse(out *scenOut) {
+	ctl := newRecCtl()
+	mk := func(id string) tea.Cmd {
+		return func() tea.Msg { ctl.log.add("cmd-start", id); return cmdMsg{id} }
+	}
+	seq := tea.Sequence(mk("a"), nil, mk("b"), tea.Batch(mk("c"), nil, mk("d")), nil, mk("done"))
+	ctl.onUpdate = func(m tea.Msg, v int) tea.Cmd {
+		if u, ok := m.(userMsg); ok && u.Sender == 0 {
+			return seq
+		}
+		return nil
+	}
+	run := startProgram(ctl, nil, tea.WithInput(nil), tea.WithoutSignalHandler())
+	const rounds = 3
+	for k := 0; k < rounds; k++ {
+		run.p.Send(userMsg{0, k})
+		want := k + 1
+		if !waitFor(3*time.Second, func() bool { return ctl.log.count("update-exit", "c:done") >= want }) {
+			break
+		}
+		time.Sleep(2 * time.Millisecond)
+	}
+	run.p.Quit()
+	run.wait(3 * time.Second)
+	desc := "the same Sequence(a, nil, b, Batch(c, nil, d), nil, done) value returned by three consecutive Updates"
+	out.record("seq-reuse", desc)
+	var got []string
+	for _, u := range updatesOf(ctl.log.snapshot()) {
+		if strings.HasPrefix(u, "c:") {
+			got = append(got, u[2:])
+		}
+	}
+	// per round: a, b, then c and d in either order, then done
+	ok := len(got) == rounds*5
+	for k := 0; ok && k < rounds; k++ {
+		g := got[k*5 : k*5+5]
+		if g[0] != "a" || g[1] != "b" || g[4] != "done" || !((g[2] == "c" && g[3] == "d") || (g[2] == "d" && g[3] == "c")) {
+			ok = false
+		}
+	}
+	if !ok {
+		out.fail(finding{Property: "C03", Class: "new", What: "a Sequence value run more than once does not run its commands once each, in order, every time", Input: desc,
+			Expected: "a b {c d} done, three times", Observed: strings.Join(got, " ")})
 	}
 }
 
